@@ -19,7 +19,7 @@ STREAMS = {
     'threads': {'quick': 12000, 'thorough': 300000, 'chunk': 100},
     'nest': {'quick': 9000, 'thorough': 250000, 'chunk': 150},
     # every step k of evaluation A: A runs k steps, B runs one complete evaluation, A resumes
-    'sweep': {'quick': 1100, 'thorough': 40000, 'chunk': 10},
+    'sweep': {'quick': 800, 'thorough': 40000, 'chunk': 10, 'selftest_max': 12},
 }
 CLOCK0 = '2024-02-29T13:14:15.161718'
 
@@ -295,6 +295,8 @@ def execute_threads(sc, stats):
         base = fn.split('/')[-1]
         stats['probe:switch_in[%s]' % base] += n
     sc['_switch_locs'] = sorted(baton.switch_locs)
+    sc['_sets'] = {'switch_locations': [tuple(x) for x in baton.switch_locs],
+                   'schedules': [canon.digest_int(log)] if baton.switches else []}
     for kname, n in world.fired.items():
         stats['fault:' + kname] += n
     if want_reach:
